@@ -65,7 +65,7 @@ class _Property(Generic[PropType]):
             self.parent = parent
         if not name:
             return
-        if not self.source:
+        if self.source is None:
             self.source = name
         self.name = name
 
@@ -165,7 +165,7 @@ class _PropertyDict(Dict[str, _Property[Any]]):
     def required(self):
         # pylint: disable=no-member
         return [
-            prop.source or name
+            name if prop.source is None else prop.source
             for name, prop in self.items()
             if prop.required and isinstance(prop.element.default, NotPassed)
         ]
